@@ -338,6 +338,19 @@ Sess1Mut == \/ \E cl \in BOOLEAN : Connect(c1, k1, cl, NoWill)
 Sess1LastNext == steps < MaxSteps /\ IF steps < MaxSteps - 1 THEN Sess1Mut ELSE \E t \in ENames : ApiPublish(t, 1, FALSE, "x")
 Sess1LastSpec == SessInit /\ [][Sess1LastNext]_vars
 
+(* C10, a persistent session whose connection is half dead: the broker cannot write to it any more (its SUBACKs are lost),
+   but reads what the client still sends.  A SUBSCRIBE for a filter the session already holds changes nothing about that
+   filter - however the SUBACK fares - and whatever the session held when the connection ends is active again on the next
+   connection.  All paths of state-changing steps, then one probe publish.  BreakOut at most once per behaviour.      *)
+NoBreak == \A i \in 1..Len(hist) : hist[i].a.a # "breakout"
+SessHalfMut == \/ Connect(c1, k1, FALSE, NoWill)
+               \/ \E q \in {1} : Subscribe(c1, 1, << <<<<"a">>, q>> >>)
+               \/ (NoBreak /\ (\E s \in subs : s.who = c1) /\ BreakOut(c1))
+               \/ ApiPublish(<<"a">>, 1, FALSE, "y")
+               \/ End(c1, "cut")
+SessHalfNext == steps < MaxSteps /\ IF steps < MaxSteps - 1 THEN SessHalfMut ELSE ApiPublish(<<"a">>, 1, FALSE, "x")
+SessHalfSpec == SessInit /\ [][SessHalfNext]_vars
+
 (* C11 first packets: every way of being refused, followed by packets on the refused connection;
    witness c2 subscribed to '#', afterwards a probe of the retained store                  *)
 ANames == {<<"a">>}
